@@ -164,8 +164,13 @@ def gen(rng, tier, index):
     if rng.random() < 0.15:
         tapes["late"] = [rng.choice([0, 1, 3]) for _ in range(6)]
     mbs = None
-    if rng.random() < 0.3:
+    r_mbs = rng.random()
+    if r_mbs < 0.25:
         mbs = 2 * len(data) + 2 * chunk + 16
+    elif r_mbs < 0.40 and len(data) >= 4:
+        # exactly the stream length: the buffer can never hold more than the limit, so the
+        # limit must never trip ("reached" is not "exceeded")
+        mbs = len(data)
     return {
         "property": ID, "version": 1,
         "knobs": {"read_chunk_size": chunk, "max_buffer_size": mbs,
